@@ -106,7 +106,7 @@ Proof.
 Qed.
 
 Definition same_batch (b b' : batch) : Prop :=
-  bid b' = bid b /\ bpart b' = bpart b /\ btag b' = btag b /\ bitems b' = bitems b.
+  bid b' = bid b /\ bpart b' = bpart b /\ btag b' = btag b /\ bitems b' = bitems b /\ bsent b' = bsent b.
 
 Lemma mark_app_spec n q : forall b', In b' (mark_app n q) ->
   In b' q \/ (exists b0 r, take_bid n q = Some (b0, r) /\ same_batch b0 b' /\ bapp b' = true).
@@ -145,7 +145,7 @@ Proof.
     apply andb_prop in E2. destruct E2 as [_ E2]. apply negb_true_iff in E2.
     split; [|split].
     + intros b' [H|H]; [|left; right; exact H]. right. exists b. subst b'. simpl.
-      repeat split; auto. left; auto.
+      repeat split; auto.
     + intros b0 [H|H].
       * subst b0. eexists. split; [left; reflexivity|]. simpl. split; [reflexivity|].
         intros y Hy. apply in_or_app. auto.
@@ -166,7 +166,8 @@ Qed.
 Definition bq (c : client) : list batch := queue c ++ inflight c ++ deadb c.
 
 Record cinv (c : client) : Prop := {
-  ci_idle : cst c = UNINIT \/ cst c = READY -> queue c = [] /\ inflight c = [] /\ deadb c = [];
+  ci_idle : cst c = UNINIT \/ cst c = READY ->
+            queue c = [] /\ inflight c = [] /\ deadb c = [] /\ pend_offs c = [];
   ci_tag : forall b, In b (bq c) ->
            btag b = kcur c /\ bpart b <> GROUPP /\ forall x, In x (bitems b) -> In (x, bpart b) (accepted c);
   ci_app : forall b, In b (queue c ++ inflight c) -> bapp b = true ->
@@ -183,9 +184,15 @@ Record cinv (c : client) : Prop := {
 
 Lemma cinv_fresh ep t : cinv (mkC true ep t [] [] false [] [] [] [] None 0 [] false [] false false []).
 Proof.
-  constructor; simpl; intros; try contradiction; auto.
-  - unfold bq in H. simpl in H. contradiction.
-  - intros x H; contradiction.
+  constructor; simpl.
+  - auto.
+  - unfold bq. simpl. intros b [].
+  - intros b [].
+  - intros b [].
+  - intros x [].
+  - intros l x [].
+  - intros _ x p [].
+  - intros x [].
 Qed.
 Lemma cinv_client0 : cinv client0.
 Proof. apply cinv_fresh. Qed.
@@ -223,12 +230,25 @@ Proof.
   constructor; unfold bq; rewrite ?H1, ?H2, ?H3, ?H4, ?H5, ?H6, ?H7, ?H8, ?H9, ?H10; auto.
 Qed.
 
-Lemma cinv_new_txn c t : cinv c -> cst c = READY -> t = IN_TXN -> cinv (new_txn c t).
+(* a change of the state alone, to a state that is neither READY nor UNINITIALIZED *)
+Lemma cinv_set_cst c t : cinv c -> t <> UNINIT -> t <> READY -> cinv (set_cst c t).
 Proof.
-  intros [A B C Cs D E F G] R T. destruct (A (or_intror R)) as (Q & I & Dd).
-  constructor; unfold bq; simpl; rewrite ?Q, ?I; simpl; intros; try contradiction; auto.
-  - subst t. destruct H; discriminate.
-  - intros x H; contradiction.
+  intros [A B C Cs D E F G] N1 N2. constructor; auto.
+  simpl. intros [H|H]; congruence.
+Qed.
+
+Lemma cinv_new_txn c : cinv c -> cst c = READY -> cinv (new_txn c IN_TXN).
+Proof.
+  intros [A B C Cs D E F G] R. destruct (A (or_intror R)) as (Q & I & Dd & Po).
+  constructor; unfold bq; simpl; rewrite ?Q, ?I, ?Po; simpl.
+  - intros [H|H]; discriminate.
+  - intros b [].
+  - intros b [].
+  - intros b [].
+  - intros x [].
+  - intros l x [].
+  - intros _ x p [].
+  - intros x [].
 Qed.
 
 Lemma cinv_accept_new c x p b :
@@ -259,7 +279,7 @@ Proof.
   - intros L y q Hy. apply in_app_or in Hy. destruct Hy as [Hy|Hy].
     + destruct (F L _ _ Hy) as [H|[(b0 & H1 & H2 & H3)|H]]; auto.
       right. left. exists b0. split; [|auto]. rewrite <- app_assoc. apply in_app_or in H1.
-      destruct H1; apply in_or_app; auto. right. right. exact H.
+      destruct H1 as [H1|H1]; apply in_or_app; auto. right. right. exact H1.
     + destruct Hy as [Hy|[]]. inversion Hy; subst. right. left. eexists. split.
       * rewrite <- app_assoc. apply in_or_app. right. left. reflexivity.
       * simpl. auto.
@@ -302,4 +322,414 @@ Proof.
     + destruct Hy as [Hy|[]]. inversion Hy; subst. right. left. exists bx.
       split; [apply in_or_app; auto | auto].
   - exact G.
+Qed.
+
+Lemma cinv_offsets c items :
+  cinv c -> cst c = IN_TXN ->
+  cinv (set_accepted (set_offs c (pend_offs c ++ [items])) (accepted c ++ pairs GROUPP items)).
+Proof.
+  intros [A B C Cs D E F G] S.
+  constructor; unfold bq; simpl.
+  - rewrite S. intros [H|H]; discriminate.
+  - intros b0 H. destruct (B b0 H) as (B1 & B2 & B3). repeat split; auto.
+    intros y Hy. apply in_or_app. left. auto.
+  - exact C.
+  - exact Cs.
+  - intros y Hy. apply in_or_app. left. auto.
+  - intros l y Hl Hy. apply in_app_or in Hl. apply in_or_app. destruct Hl as [Hl|[Hl|[]]].
+    + left. eauto.
+    + subst l. right. unfold pairs. apply in_map_iff. exists y. auto.
+  - intros L y q Hy. apply in_app_or in Hy. destruct Hy as [Hy|Hy].
+    + destruct (F L _ _ Hy) as [H|[H|(H1 & l & H2 & H3)]]; auto.
+      right. right. split; auto. exists l. split; [apply in_or_app; auto | auto].
+    + unfold pairs in Hy. apply in_map_iff in Hy. destruct Hy as (z & Hz & Hi). inversion Hz; subst.
+      right. right. split; auto. exists items. split; [apply in_or_app; right; left; reflexivity | auto].
+  - exact G.
+Qed.
+
+Lemma cinv_complete c :
+  cinv c -> queue c = [] -> inflight c = [] -> pend_offs c = [] ->
+  cinv (set_deadb (set_grp (set_parts (set_cst c READY) [] (pend_parts c)) false) []).
+Proof.
+  intros [A B C Cs D E F G] Q I Po.
+  constructor; unfold bq; simpl; rewrite ?Q, ?I, ?Po; simpl.
+  - auto.
+  - intros b [].
+  - intros b [].
+  - intros b [].
+  - exact D.
+  - intros l x [].
+  - intros L x p H. destruct (F L _ _ H) as [H1|[(b & H1 & _)|(_ & l & H1 & _)]]; auto.
+    + rewrite Q, I in H1. destruct H1.
+    + rewrite Po in H1. destruct H1.
+  - exact G.
+Qed.
+
+Lemma cinv_clear c t : cinv c -> t <> UNINIT -> t <> READY -> cinv (c_clear c t).
+Proof.
+  intros [A B C Cs D E F G] N1 N2.
+  constructor; unfold bq, c_clear; simpl; auto.
+  - intros [H|H]; congruence.
+  - intros l x [].
+  - intros H; discriminate.
+Qed.
+
+Lemma cinv_off_committed c x items rest :
+  cinv c -> pend_offs c = items :: rest -> In x (ctoc c) ->
+  cinv (set_offs c (if is_niln (remn x items) then rest else remn x items :: rest)).
+Proof.
+  intros [A B C Cs D E F G] P T.
+  constructor; unfold bq; simpl; auto.
+  - intros H. destruct (A H) as (_ & _ & _ & A4). rewrite P in A4. discriminate.
+  - intros l y Hl Hy.
+    destruct (is_niln (remn x items)) eqn:N.
+    + apply (E l y); [rewrite P; right; exact Hl | exact Hy].
+    + destruct Hl as [Hl|Hl].
+      * subst l. apply remn_In in Hy. apply (E items y); [rewrite P; left; reflexivity | tauto].
+      * apply (E l y); [rewrite P; right; exact Hl | exact Hy].
+  - intros L y q Hy. destruct (F L _ _ Hy) as [H|[H|(H1 & l & H2 & H3)]]; auto.
+    subst q. rewrite P in H2. destruct H2 as [H2|H2].
+    + subst l. destruct (Nat.eq_dec y x) as [Eq|Ne].
+      * subst y. left. apply G. exact T.
+      * right. right. split; auto. exists (remn x items).
+        assert (Hr : In y (remn x items)) by (apply remn_In; auto).
+        destruct (is_niln (remn x items)) eqn:N.
+        -- apply is_niln_nil in N. rewrite N in Hr. destruct Hr.
+        -- split; [left; reflexivity | exact Hr].
+    + right. right. split; auto. exists l. split; [|exact H3].
+      destruct (is_niln (remn x items)); [exact H2 | right; exact H2].
+Qed.
+
+Lemma cinv_drain c n x q :
+  cinv c -> take_bid n (queue c) = Some (x, q) ->
+  cinv (set_inflight (set_queue c q) (inflight c ++ [mkB (bid x) (bpart x) (btag x) (bitems x) true (bapp x)])).
+Proof.
+  intros [A B C Cs D E F G] T. destruct (take_bid_some _ _ _ _ T) as (T1 & T2 & T3 & T4).
+  set (x' := mkB (bid x) (bpart x) (btag x) (bitems x) true (bapp x)).
+  constructor; unfold bq; simpl; auto.
+  - intros H. destruct (A H) as (A1 & _). rewrite A1 in T1. destruct T1.
+  - intros b0 H. rewrite !in_app_iff in H. simpl in H.
+    assert (K : In b0 (bq c) \/ b0 = x').
+    { unfold bq. rewrite !in_app_iff. destruct H as [H|[[H|[H|[]]]|H]]; auto. }
+    destruct K as [K|K]; [apply B; exact K|]. subst b0. simpl.
+    apply (B x). unfold bq. apply in_or_app. auto.
+  - intros b0 H Hb. rewrite !in_app_iff in H. simpl in H. destruct H as [H|[H|[H|[]]]].
+    + apply C; auto. apply in_or_app. auto.
+    + apply C; auto. apply in_or_app. auto.
+    + subst b0. simpl in *. split; [reflexivity|]. apply (C x); auto. apply in_or_app. auto.
+  - intros b0 H. apply in_app_or in H. destruct H as [H|[H|[]]]; [auto | subst b0; reflexivity].
+  - intros L y p Hy. destruct (F L _ _ Hy) as [H|[(b0 & H1 & H2 & H3)|H]]; auto.
+    right. left. apply in_app_or in H1. destruct H1 as [H1|H1].
+    + destruct (T4 _ H1) as [K|K].
+      * subst b0. exists x'. split; [|auto]. rewrite !in_app_iff. simpl. auto.
+      * exists b0. split; [|auto]. rewrite !in_app_iff. auto.
+    + exists b0. split; [|auto]. rewrite !in_app_iff. auto.
+Qed.
+
+Lemma cinv_ok c n x f :
+  cinv c -> take_bid n (inflight c) = Some (x, f) -> bapp x = true -> cinv (set_inflight c f).
+Proof.
+  intros [A B C Cs D E F G] T Ha. destruct (take_bid_some _ _ _ _ T) as (T1 & T2 & T3 & T4).
+  constructor; unfold bq; simpl; auto.
+  - intros H. destruct (A H) as (_ & A2 & _). rewrite A2 in T1. destruct T1.
+  - intros b0 H. apply B. unfold bq. rewrite !in_app_iff in *. destruct H as [H|[H|H]]; auto.
+  - intros b0 H. apply C. rewrite !in_app_iff in *. destruct H as [H|H]; auto.
+  - intros L y p Hy. destruct (F L _ _ Hy) as [H|[(b0 & H1 & H2 & H3)|H]]; auto.
+    apply in_app_or in H1. destruct H1 as [H1|H1].
+    + right. left. exists b0. split; [apply in_or_app; auto | auto].
+    + destruct (T4 _ H1) as [K|K].
+      * subst b0. left. subst p. apply (C x); auto. apply in_or_app. auto.
+      * right. left. exists b0. split; [apply in_or_app; auto | auto].
+Qed.
+
+Lemma cinv_retry c n x f :
+  cinv c -> take_bid n (inflight c) = Some (x, f) -> cinv (set_queue (set_inflight c f) (x :: queue c)).
+Proof.
+  intros [A B C Cs D E F G] T. destruct (take_bid_some _ _ _ _ T) as (T1 & T2 & T3 & T4).
+  constructor; unfold bq; simpl; auto.
+  - intros H. destruct (A H) as (_ & A2 & _). rewrite A2 in T1. destruct T1.
+  - intros b0 H. apply B. unfold bq. rewrite !in_app_iff in *. destruct H as [H|[H|[H|H]]]; auto.
+    subst b0. auto.
+  - intros b0 H. apply C. rewrite !in_app_iff in *. destruct H as [H|[H|H]]; auto. subst; auto.
+  - intros L y p Hy. destruct (F L _ _ Hy) as [H|[(b0 & H1 & H2 & H3)|H]]; auto.
+    right. left. exists b0. split; [|auto]. apply in_app_or in H1. destruct H1 as [H1|H1].
+    + right. apply in_or_app. auto.
+    + destruct (T4 _ H1) as [K|K]; [left; auto | right; apply in_or_app; auto].
+Qed.
+
+Lemma cinv_fail_inflight c n x f :
+  cinv c -> take_bid n (inflight c) = Some (x, f) ->
+  cinv (set_lostb (set_deadb (set_inflight c f) (deadb c ++ [x])) true).
+Proof.
+  intros [A B C Cs D E F G] T. destruct (take_bid_some _ _ _ _ T) as (T1 & T2 & T3 & T4).
+  constructor; unfold bq; simpl; auto.
+  - intros H. destruct (A H) as (_ & A2 & _). rewrite A2 in T1. destruct T1.
+  - intros b0 H. apply B. unfold bq. rewrite !in_app_iff in *. simpl in H.
+    destruct H as [H|[H|[H|[H|[]]]]]; auto. subst; auto.
+  - intros b0 H. apply C. rewrite !in_app_iff in *. destruct H as [H|H]; auto.
+  - intros H; discriminate.
+Qed.
+
+Lemma cinv_fail_queue c n x q :
+  cinv c -> take_bid n (queue c) = Some (x, q) -> cinv (set_lostb (set_queue c q) true).
+Proof.
+  intros [A B C Cs D E F G] T. destruct (take_bid_some _ _ _ _ T) as (T1 & T2 & T3 & T4).
+  constructor; unfold bq; simpl; auto.
+  - intros H. destruct (A H) as (A1 & _). rewrite A1 in T1. destruct T1.
+  - intros b0 H. apply B. unfold bq. rewrite !in_app_iff in *. destruct H as [H|[H|H]]; auto.
+  - intros b0 H. apply C. rewrite !in_app_iff in *. destruct H as [H|H]; auto.
+  - intros H; discriminate.
+Qed.
+
+Lemma cinv_toc c items hd rest sl :
+  cinv c -> pend_offs c = hd :: rest -> list_eqb items hd = true ->
+  cinv (set_ctoc (set_capp (set_slot c sl) (capp c ++ pairs GROUPP items)) items).
+Proof.
+  intros [A B C Cs D E F G] P L. destruct (list_eqb_incl _ _ L) as (L1 & L2).
+  constructor; unfold bq; simpl; auto.
+  - intros b0 H Hb. destruct (C b0 H Hb) as (C1 & C2). split; auto.
+    intros y Hy. apply in_or_app. left. auto.
+  - intros y Hy. apply in_app_or in Hy. destruct Hy as [Hy|Hy]; [auto|].
+    unfold pairs in Hy. apply in_map_iff in Hy. destruct Hy as (z & Hz & Hi). subst y.
+    apply (E hd z); [rewrite P; left; reflexivity | auto].
+  - intros Lb y p Hy. destruct (F Lb _ _ Hy) as [H|[H|H]]; auto. left. apply in_or_app. auto.
+  - intros y Hy. apply in_or_app. right. unfold pairs. apply in_map_iff. exists y. auto.
+Qed.
+
+Lemma cinv_produce c n x r :
+  cinv c -> take_bid n (inflight c ++ (match cst c with FATAL => deadb c | _ => [] end)) = Some (x, r) ->
+  cinv (set_capp (set_inflight c (mark_app n (inflight c))) (capp c ++ pairs (bpart x) (bitems x))).
+Proof.
+  intros [A B C Cs D E F G] T.
+  assert (Xin : In x (bq c)).
+  { destruct (take_bid_some _ _ _ _ T) as (T1 & _). unfold bq. rewrite !in_app_iff in *.
+    destruct T1 as [T1|T1]; auto. destruct (cst c); simpl in T1; try contradiction; auto. }
+  constructor; unfold bq; simpl; auto.
+  - intros H. destruct (A H) as (A1 & A2 & A3 & A4). rewrite A2. simpl. auto.
+  - intros b0 H. rewrite !in_app_iff in H. destruct H as [H|[H|H]].
+    + destruct (B b0) as (B1 & B2 & B3); [unfold bq; rewrite !in_app_iff; auto|]. auto.
+    + destruct (mark_app_spec _ _ _ H) as [K|(b1 & r1 & K1 & (K2 & K3 & K4 & K5 & K6) & K7)].
+      * destruct (B b0) as (B1 & B2 & B3); [unfold bq; rewrite !in_app_iff; auto|]. auto.
+      * destruct (take_bid_some _ _ _ _ K1) as (K8 & _).
+        destruct (B b1) as (B1 & B2 & B3); [unfold bq; rewrite !in_app_iff; auto|].
+        rewrite K3, K4, K5. auto.
+    + destruct (B b0) as (B1 & B2 & B3); [unfold bq; rewrite !in_app_iff; auto|]. auto.
+  - intros b0 H Hb. apply in_app_or in H. destruct H as [H|H].
+    + destruct (C b0) as (C1 & C2); [apply in_or_app; auto | auto |]. split; auto.
+      intros y Hy. apply in_or_app. left. auto.
+    + destruct (mark_app_spec _ _ _ H) as [K|(b1 & r1 & K1 & (K2 & K3 & K4 & K5 & K6) & K7)].
+      * destruct (C b0) as (C1 & C2); [apply in_or_app; auto | auto |]. split; auto.
+        intros y Hy. apply in_or_app. left. auto.
+      * destruct (take_bid_some _ _ _ _ K1) as (K8 & _).
+        destruct (take_bid_app _ _ _ _ _ T) as [(r2 & T1)|(T1 & _)]; [|congruence].
+        rewrite K1 in T1. inversion T1; subst b1.
+        split; [rewrite K6; auto|]. intros y Hy. apply in_or_app. right.
+        unfold pairs. apply in_map_iff. exists y. rewrite K3. split; [reflexivity|]. rewrite <- K5. exact Hy.
+  - intros b0 H. destruct (mark_app_spec _ _ _ H) as [K|(b1 & r1 & K1 & (K2 & K3 & K4 & K5 & K6) & K7)]; auto.
+    destruct (take_bid_some _ _ _ _ K1) as (K8 & _). rewrite K6. auto.
+  - intros y Hy. apply in_app_or in Hy. destruct Hy as [Hy|Hy]; [auto|].
+    unfold pairs in Hy. apply in_map_iff in Hy. destruct Hy as (z & Hz & Hi). subst y.
+    destruct (B x Xin) as (_ & _ & B3). auto.
+  - intros L y p Hy. destruct (F L _ _ Hy) as [H|[(b0 & H1 & H2 & H3)|H]]; auto.
+    + left. apply in_or_app. auto.
+    + right. left. apply in_app_or in H1. destruct H1 as [H1|H1].
+      * exists b0. split; [apply in_or_app; auto | auto].
+      * destruct (mark_app_cover n _ _ H1) as (b' & M1 & (M2 & M3 & M4 & M5 & M6)).
+        exists b'. split; [apply in_or_app; auto|]. split; [congruence | rewrite M5; auto].
+  - intros y Hy. apply in_or_app. left. auto.
+Qed.
+
+(* ---------- every step preserves the invariant of every instance --------------------------------- *)
+Lemma gcinv_put_env s e : gcinv s -> gcinv (put_env s e).
+Proof. exact (fun H => H). Qed.
+
+Ltac wc H c c' Hg Hf :=
+  apply with_client_some in H; destruct H as (c & c' & Hg & Hf & ->).
+
+Ltac use_client G Hg Hn Ha Ci :=
+  destruct (get_some _ _ _ Hg) as (Hn & Ha); pose proof (gcinv_get _ _ _ G Hn) as Ci.
+
+Lemma step_gcinv s e s' : step s e = Some s' -> gcinv s -> gcinv s'.
+Proof.
+  intros H G. destruct e; unfold step in H; cbv beta iota zeta in H.
+  - (* EFence *) destruct (est (genv s)); inv_some. exact G.
+  - (* EMarkers *) destruct (est (genv s)); inv_some. exact G.
+  - (* EInitOk *) destruct (est (genv s)); inv_some; exact G.
+  - (* AStart *)
+    destruct (get s i) as [c|] eqn:Hg; [|discriminate].
+    destruct (cst c) eqn:E0; try discriminate. destruct (trans UNINIT READY); [|discriminate].
+    destruct (memn ep (eissued (genv s))); [|discriminate]. inv_some.
+    use_client G Hg Hn Ha Ci.
+    unfold gcinv. simpl. apply Forall_set_nth; [exact G|].
+    destruct Ci as [A B C Cs D E F Gt]. destruct (A (or_introl E0)) as (A1 & A2 & A3 & A4).
+    constructor; unfold bq; simpl; auto.
+  - (* ABegin *)
+    wc H c c' Hg Hf. use_client G Hg Hn Ha Ci.
+    destruct (slot c); [discriminate|].
+    destruct (trans (cst c) IN_TXN) eqn:T; [|discriminate]. inv_some.
+    pose proof (trans_target _ _ _ T). subst t. apply trans_in_txn in T.
+    apply gcinv_put; auto. apply cinv_new_txn; auto.
+  - (* AAccept *)
+    wc H c c' Hg Hf. use_client G Hg Hn Ha Ci.
+    destruct (cst c) eqn:S; try discriminate.
+    destruct (Nat.eqb p GROUPP) eqn:P; [discriminate|]. apply Nat.eqb_neq in P.
+    destruct newb.
+    + destruct (has_part_q p (queue c) || has_bid b (queue c ++ inflight c ++ deadb c)); [discriminate|].
+      inv_some. apply gcinv_put; auto. apply cinv_accept_new; auto.
+    + destruct (snoc_item p b x (queue c)) eqn:SN; [|discriminate]. inv_some.
+      apply gcinv_put; auto. eapply cinv_accept_old; eauto.
+  - (* AOffsets *)
+    wc H c c' Hg Hf. use_client G Hg Hn Ha Ci.
+    destruct (cst c) eqn:S; try discriminate. inv_some.
+    apply gcinv_put; auto. apply cinv_offsets; auto.
+  - (* ACommitting *)
+    wc H c c' Hg Hf. use_client G Hg Hn Ha Ci.
+    destruct (trans (cst c) COMMITTING) eqn:T.
+    + pose proof (trans_target _ _ _ T). subst t.
+      destruct (cst c); inv_some; apply gcinv_put; auto; apply cinv_set_cst; auto; discriminate.
+    + destruct (cst c); discriminate.
+  - (* AAborting *)
+    wc H c c' Hg Hf. use_client G Hg Hn Ha Ci.
+    destruct (trans (cst c) ABORTING) eqn:T; [|discriminate]. inv_some.
+    pose proof (trans_target _ _ _ T). subst t.
+    apply gcinv_put; auto; apply cinv_set_cst; auto; discriminate.
+  - (* AComplete *)
+    destruct (get s i) as [c|] eqn:Hg; [|discriminate]. use_client G Hg Hn Ha Ci.
+    destruct (is_niln (pend_parts c) && is_niln (pend_offs c) && is_niln (queue c) && is_niln (inflight c)
+              && (slot_is c KEnd SApplied || slot_is c KEnd SPicked && is_empty_c c)) eqn:Gd; [|discriminate].
+    apply andb_prop in Gd. destruct Gd as [Gd Ge]. apply andb_prop in Gd. destruct Gd as [Gd Gd0].
+    apply andb_prop in Gd. destruct Gd as [Gd Gd1]. apply andb_prop in Gd. destruct Gd as [Gd3 Gd2].
+    apply is_niln_nil in Gd2. apply is_niln_nil in Gd1. apply is_niln_nil in Gd0.
+    assert (K : exists t, trans (cst c) READY = Some t /\
+                          s' = mkG (set_nth i (set_deadb (set_grp (set_parts (set_cst c t) [] (pend_parts c)) false) [])
+                                            (clients s)) (genv s)
+                                   (ended s ++ [(tagof i c, match cst c with COMMITTING => OCommitted | _ => OAborted end,
+                                                 accepted c)])).
+    { destruct (cst c); try discriminate; destruct (trans _ READY) eqn:T; try discriminate;
+        inversion H; eexists; split; reflexivity. }
+    destruct K as (t & T & ->). pose proof (trans_target _ _ _ T). subst t.
+    unfold gcinv. simpl. apply Forall_set_nth; [exact G|]. apply cinv_complete; auto.
+  - (* AError *)
+    wc H c c' Hg Hf. use_client G Hg Hn Ha Ci.
+    assert (K : exists t, trans (cst c) ABORTABLE = Some t /\ c' = c_clear c t).
+    { destruct (slot c) as [[[] ?]|]; try discriminate; destruct (cst c); try discriminate;
+        match type of Hf with match ?t with _ => _ end = _ => destruct t eqn:T end; try discriminate;
+        inversion Hf; eauto. }
+    destruct K as (t & T & ->). pose proof (trans_target _ _ _ T). subst t.
+    apply gcinv_put; auto. apply cinv_clear; auto; discriminate.
+  - (* AFatal *)
+    wc H c c' Hg Hf. use_client G Hg Hn Ha Ci.
+    destruct (trans (cst c) FATAL) eqn:T; [|discriminate]. inv_some.
+    pose proof (trans_target _ _ _ T). subst t.
+    apply gcinv_put; auto. apply cinv_clear; auto; discriminate.
+  - (* AKill *)
+    destruct (nth_error (clients s) i) as [c|] eqn:Hn; [|discriminate]. inv_some.
+    apply gcinv_put; auto. eapply cinv_only_other; [eapply gcinv_get; eauto | reflexivity ..].
+  - (* TPick *)
+    wc H c c' Hg Hf. use_client G Hg Hn Ha Ci.
+    destruct (slot c); [discriminate|].
+    destruct k as [k1|]; destruct (next_kind c) as [k2|]; try discriminate.
+    + destruct (skind_eqb k1 k2); [|discriminate]. inv_some.
+      apply gcinv_put; auto. eapply cinv_only_other; [exact Ci | reflexivity ..].
+    + inv_some. apply gcinv_put; auto.
+  - (* TDone *)
+    wc H c c' Hg Hf. use_client G Hg Hn Ha Ci.
+    destruct (slot c); [|discriminate]. inv_some.
+    apply gcinv_put; auto. eapply cinv_only_other; [exact Ci | reflexivity ..].
+  - (* CPartAdded *)
+    wc H c c' Hg Hf. use_client G Hg Hn Ha Ci.
+    destruct (slot_is c KParts SApplied && memn p (pend_parts c)); [|discriminate]. inv_some.
+    apply gcinv_put; auto. eapply cinv_only_other; [exact Ci | reflexivity ..].
+  - (* CGroupAdded *)
+    wc H c c' Hg Hf. use_client G Hg Hn Ha Ci.
+    destruct (slot_is c KOffs SApplied); [|discriminate]. inv_some.
+    apply gcinv_put; auto. eapply cinv_only_other; [exact Ci | reflexivity ..].
+  - (* COffCommitted *)
+    wc H c c' Hg Hf. use_client G Hg Hn Ha Ci.
+    destruct (slot_is c KToc SApplied && memn x (ctoc c)) eqn:Gd; [|discriminate].
+    apply andb_prop in Gd. destruct Gd as [_ Gd]. apply memn_In in Gd.
+    destruct (pend_offs c) as [|items rest] eqn:P; [discriminate|].
+    destruct (memn x items); [|discriminate]. inv_some.
+    apply gcinv_put; auto. eapply cinv_off_committed; eauto.
+  - (* SDrain *)
+    wc H c c' Hg Hf. use_client G Hg Hn Ha Ci.
+    destruct (take_bid b (queue c)) as [[x q]|] eqn:T; [|discriminate].
+    destruct (head_of (bpart x) (queue c)); [|discriminate].
+    destruct (Nat.eqb (bid b0) b && negb (memn (bpart x) (pend_parts c))
+              && negb (has_part_q (bpart x) (inflight c))); [|discriminate]. inv_some.
+    apply gcinv_put; auto. eapply cinv_drain; eauto.
+  - (* SOk *)
+    wc H c c' Hg Hf. use_client G Hg Hn Ha Ci.
+    destruct (take_bid b (inflight c)) as [[x f]|] eqn:T.
+    + destruct (bapp x) eqn:Ba; [|discriminate]. inv_some.
+      apply gcinv_put; auto. eapply cinv_ok; eauto.
+    + destruct (cst c); try discriminate. destruct (has_bid b (deadb c)); [|discriminate]. inv_some.
+      apply gcinv_put; auto.
+  - (* SRetry *)
+    wc H c c' Hg Hf. use_client G Hg Hn Ha Ci.
+    destruct (take_bid b (inflight c)) as [[x f]|] eqn:T.
+    + inv_some. apply gcinv_put; auto. eapply cinv_retry; eauto.
+    + destruct (cst c); try discriminate. destruct (has_bid b (deadb c)); [|discriminate]. inv_some.
+      apply gcinv_put; auto.
+  - (* SFail *)
+    wc H c c' Hg Hf. use_client G Hg Hn Ha Ci.
+    destruct (take_bid b (inflight c)) as [[x f]|] eqn:T.
+    + inv_some. apply gcinv_put; auto. eapply cinv_fail_inflight; eauto.
+    + destruct (take_bid b (queue c)) as [[x q]|] eqn:T2.
+      * inv_some. apply gcinv_put; auto. eapply cinv_fail_queue; eauto.
+      * destruct (cst c); try discriminate. destruct (has_bid b (deadb c)); [|discriminate]. inv_some.
+        apply gcinv_put; auto.
+  - (* RAddParts *)
+    destruct (get s i) as [c|] eqn:Hg; [|discriminate]. use_client G Hg Hn Ha Ci.
+    destruct (slot_is c KParts SPicked && list_eqb ps (pend_parts c) && negb (is_niln ps)); [|discriminate].
+    destruct v.
+    + destruct (Nat.eqb (cep c) (eep (genv s)) && not_prep (genv s)); [|discriminate]. inv_some.
+      apply gcinv_put_env. apply gcinv_put; auto. eapply cinv_only_other; [exact Ci | reflexivity ..].
+    + inv_some. apply gcinv_put; auto. eapply cinv_only_other; [exact Ci | reflexivity ..].
+  - (* RAddOffs *)
+    destruct (get s i) as [c|] eqn:Hg; [|discriminate]. use_client G Hg Hn Ha Ci.
+    destruct (slot_is c KOffs SPicked); [|discriminate].
+    destruct v.
+    + destruct (Nat.eqb (cep c) (eep (genv s)) && not_prep (genv s)); [|discriminate]. inv_some.
+      apply gcinv_put_env. apply gcinv_put; auto. eapply cinv_only_other; [exact Ci | reflexivity ..].
+    + inv_some. apply gcinv_put; auto. eapply cinv_only_other; [exact Ci | reflexivity ..].
+  - (* RToc *)
+    destruct (get s i) as [c|] eqn:Hg; [|discriminate]. use_client G Hg Hn Ha Ci.
+    destruct (pend_offs c) as [|hd rest] eqn:P; [discriminate|].
+    destruct (slot_is c KToc SPicked && list_eqb items hd) eqn:Gd; [|discriminate].
+    apply andb_prop in Gd. destruct Gd as [_ Gd].
+    destruct v.
+    + destruct (Nat.eqb (cep c) (eep (genv s))); [|discriminate]. inv_some.
+      apply gcinv_put_env. apply gcinv_put; auto. eapply cinv_toc; eauto.
+    + inv_some. apply gcinv_put; auto. eapply cinv_only_other; [exact Ci | reflexivity ..].
+  - (* REndTxn *)
+    destruct (get s i) as [c|] eqn:Hg; [|discriminate]. use_client G Hg Hn Ha Ci.
+    match type of H with (if ?g then _ else _) = _ => destruct g; [|discriminate] end.
+    destruct v.
+    + destruct (Nat.eqb (cep c) (eep (genv s))); [|discriminate].
+      destruct (est (genv s)); try discriminate.
+      * inv_some. apply gcinv_put_env. apply gcinv_put; auto.
+        eapply cinv_only_other; [exact Ci | reflexivity ..].
+      * destruct (Bool.eqb commit0 commit); [|discriminate]. inv_some. apply gcinv_put; auto.
+        eapply cinv_only_other; [exact Ci | reflexivity ..].
+    + inv_some. apply gcinv_put; auto. eapply cinv_only_other; [exact Ci | reflexivity ..].
+  - (* RProduce *)
+    destruct (nth_error (clients s) i) as [c|] eqn:Hn; [|discriminate].
+    pose proof (gcinv_get _ _ _ G Hn) as Ci.
+    destruct (take_bid b (inflight c ++ match cst c with FATAL => deadb c | _ => [] end)) as [[x r]|] eqn:T;
+      [|discriminate].
+    destruct v.
+    + destruct (Nat.eqb (cep c) (eep (genv s))); [|discriminate]. inv_some.
+      apply gcinv_put_env. apply gcinv_put; auto. eapply cinv_produce; eauto.
+    + inv_some. exact G.
+Qed.
+
+Lemma gcinv_g0 n : gcinv (g0 n).
+Proof. unfold gcinv, g0. simpl. apply Forall_forall. intros c H. apply repeat_spec in H. subst. apply cinv_client0. Qed.
+
+Lemma run_gcinv : forall tr s s', run s tr = Some s' -> gcinv s -> gcinv s'.
+Proof.
+  induction tr as [|e tr IH]; intros s s' H G; simpl in H.
+  - inversion H; subst; exact G.
+  - destruct (step s e) as [s1|] eqn:S; [|discriminate]. eapply IH; eauto. eapply step_gcinv; eauto.
 Qed.
